@@ -60,8 +60,8 @@ ASSUMPTIONS = [
 # by-construction exclusions of listed findings; flip one off when its fix lands in /repo (and move the known_findings.d
 # entry to replays/C08/)
 EXCLUDE_FINALIZE_AUTOESCAPE = True   # F36: finalize / escape order for constant output
-EXCLUDE_STRICT_LOAD_ERROR = True     # F38: StrictUndefined constant raises UndefinedError while the template is loaded
-EXCLUDE_CONST_SLICE = True           # F39: constant slice of a non-sequence folds to undefined, raises at run time
+EXCLUDE_STRICT_LOAD_ERROR = False    # F44 (fixed 8a507e6): StrictUndefined constant raises UndefinedError while the template is loaded
+EXCLUDE_CONST_SLICE = False          # F43 (fixed b0e4504): constant slice of a non-sequence folds to undefined, raises at run time
 
 _state = {}
 _counter = {"const_out": 0, "computed_out": 0}
